@@ -232,6 +232,9 @@ func exploreRunner(r *ev.Run, maxDepth, workers int) {
 	var next []aState
 	var nStates atomic.Int64
 	add := func(img *memory.Database, c uint64, depth int, trace string) {
+		if memGuard(r) {
+			return
+		}
 		k := key{faultdb.Hash(img), c}
 		mu.Lock()
 		defer mu.Unlock()
